@@ -121,7 +121,11 @@ func (or *Orchestrator) Service() *Service {
 					wg.Add(1)
 					go func(ss *Service) {
 						defer wg.Done()
-						ec.Add(ss.waitFor(ctx))
+						// wait for the service itself (as for
+						// the services started below): when
+						// ctx is canceled the service may still
+						// be running and still produce errors.
+						ec.Add(ss.Wait())
 					}(s)
 					continue
 				}
